@@ -299,6 +299,28 @@ PROPS["C02"] = Prop(
 )
 
 
+MAPU = 34  # the map/set model's lookup loops run MAP_CAP = 32 times
+
+# loops of the REAL code whose trip count depends on a symbolic length: bounded per loop
+# (discovered in the goto binary by source text; unwinding assertions stay on)
+
+
+def kmer_loop(n):
+    return ("kmer/src/kmer.rs", r"^\s*loop\s*\{", n + 2)
+
+
+def cgr_loop(n):
+    return ("composition/src/cgr.rs", r"for\s+s\s+in\s+seq\.iter\(\)", n + 2)
+
+
+def pycgr_loop(n):
+    return ("pybindings/src/cgr.rs", r"for\s+s\s+in\s+seq\.as_bytes\(\)\.iter\(\)", n + 2)
+
+
+def ocgr_kmer_loop(k):
+    return ("composition/src/oligocgr.rs", r"for\s+s\s+in\s+kmer\.as_bytes\(\)", k + 2)
+
+
 # ---------------------------------------------------------------------------
 # C03
 import importlib.util as _ilu
@@ -329,7 +351,7 @@ def gen_tables(inj, insts):
 def c03_instances(tier, seed):
     out = []
     for k in ((1,) if tier == "quick" else (1, 2)):
-        out.append(Inst("c03_insolver_k%d" % k, "verif_c03", "kmer", "c03_insolver::<%d>(&RANK_K%d, &INV_K%d, COUNT_K%d)" % (k, k, k, k), 66,
+        out.append(Inst("c03_insolver_k%d" % k, "verif_c03", "kmer", "c03_insolver::<%d>(&RANK_K%d, &INV_K%d, COUNT_K%d)" % (k, k, k, k), MAPU,
                         {"clause": "encoding validation: real kmer_pos_maps executed by the solver equals the native table", "k": k, "tables": [k]},
                         core=(k == 1), timeout=1500, cost=300.0 * k))
     tks = [1, 2, 3, 4, 5, 6] if tier == "quick" else [1, 2, 3, 4, 5, 6, 7, 8]
@@ -339,25 +361,25 @@ def c03_instances(tier, seed):
                         {"clause": "bijection; table by native run of the real kmer_pos_maps, quantified obligations by the solver", "k": k,
                          "x,y": "symbolic, all codes < 4^k", "p": "symbolic column", "tables": [k]},
                         core=(k <= 6), timeout=1500, cost=10.0 * k))
-    hks = [1, 2, 3]  # the map model holds 64 entries: k <= 3 (32 columns)
+    hks = [1, 2, 3]  # the map model holds 32 entries: k <= 3 (32 columns)
     for k in hks:
         for rev in (False, True):
             sfx = "_rev" if rev else ""
             out.append(Inst("c03_header_k%d%s" % (k, sfx), "verif_c03h", "composition",
-                            "c03_header::<%d>(&RANK_K%d, &INV_K%d, COUNT_K%d)" % (k, k, k, k), max(4 ** k + 2, 66),
-                            {"clause": "CLI header names the canonical k-mers in column order", "k": k, "p": "symbolic column",
+                            "c03_header::<%d>(&RANK_K%d, &INV_K%d, COUNT_K%d, &OCANON_K%d)" % (k, k, k, k, k), MAPU,
+                            {"clause": "CLI header names the canonical k-mers in column order", "k": k, "columns": "all (concrete walk)",
                              "map_model_iteration": "reversed" if rev else "insertion order", "tables": [k]},
-                            core=(k <= 3), timeout=1800, cost=40.0 * 4 ** k, features=(["kmer/verif_rev_iter"] if rev else [])))
-        out.append(Inst("c03_pyheader_k%d" % k, "verif_c03p", "pybindings", "c03_pyheader::<%d>(&RANK_K%d, &INV_K%d, COUNT_K%d)" % (k, k, k, k),
-                        max(4 ** k + 2, 66),
-                        {"clause": "Python binding header names the canonical k-mers in column order", "k": k, "p": "symbolic column", "tables": [k]},
-                        core=(k <= 3), timeout=1800, cost=40.0 * 4 ** k))
-    out.append(Inst("c03_pynew_k1", "verif_c03p", "pybindings", "c03_pynew::<1>(&RANK_K1, &INV_K1, COUNT_K1)", 66,
+                            core=True, timeout=1800, cost=40.0 * 4 ** k, features=(["kmer/verif_rev_iter"] if rev else [])))
+        out.append(Inst("c03_pyheader_k%d" % k, "verif_c03p", "pybindings", "c03_pyheader::<%d>(&RANK_K%d, &INV_K%d, COUNT_K%d, &OCANON_K%d)" % (k, k, k, k, k),
+                        MAPU,
+                        {"clause": "Python binding header names the canonical k-mers in column order", "k": k, "columns": "all (concrete walk)", "tables": [k]},
+                        core=True, timeout=1800, cost=40.0 * 4 ** k))
+    out.append(Inst("c03_pynew_k1", "verif_c03p", "pybindings", "c03_pynew::<1>(&RANK_K1, &INV_K1, COUNT_K1)", MAPU,
                     {"clause": "binding constructor executed by the solver stores the native tables", "k": 1, "tables": [1]}, core=False, timeout=1500, cost=300.0))
     return out
 
 
-HASHMAP_NOTE = ("std HashMap/HashSet are replaced under cfg(kani) by fixed-capacity (64) association-list models (shim/containers.rs; RandomState needs a getrandom syscall Kani "
+HASHMAP_NOTE = ("std HashMap/HashSet are replaced under cfg(kani) by fixed-capacity (32) association-list models (shim/containers.rs; RandomState needs a getrandom syscall Kani "
                 "cannot model); iteration order of the model = insertion order (and reversed where stated); native replays use the std containers")
 BIO_NOTE = "the `bio` crate is patched by a stand-in in Kani builds (it does not compile under kani-compiler); none of its code is executed by this check"
 
@@ -412,32 +434,34 @@ def c04_instances(tier, seed):
 
     def counts(k, n, norm, core=True, timeout=1500):
         out.append(Inst("c04_%s_k%d_n%d" % ("norm" if norm else "raw", k, n), "verif_c04", "composition",
-                        "c04_counts::<%d, %d, %s>(&RANK_K%d, COUNT_K%d)" % (k, n, "true" if norm else "false", k, k), max(n + 2, 4 ** k + 2) if k <= 3 else n + 2,
+                        "c04_counts::<%d, %d, %s>(&RANK_K%d, COUNT_K%d, &OCOL_K%d)" % (k, n, "true" if norm else "false", k, k, k),
+                        max(n + 2, kcount_of(k) + 2),
                         {"clause": "row = per-column window counts (%s)" % ("normalised" if norm else "raw"), "k": k, "max_len": n, "len": "symbolic 0..=%d" % n,
-                         "column": "symbolic", "tables": [k]}, core=core, timeout=timeout, cost=20.0 * n * (2 if norm else 1)))
+                         "column": "symbolic", "tables": [k]}, core=core, timeout=timeout, cost=20.0 * n * (2 if norm else 1) * kcount_of(k),
+                        unwindset=[kmer_loop(n)]))
 
     def inv(k, n, mode, core=True, timeout=1500):
         nm = ["revcomp", "case", "tu"][mode]
         out.append(Inst("c04_inv_%s_k%d_n%d" % (nm, k, n), "verif_c04", "composition",
-                        "c04_invariance::<%d, %d, %d>(&RANK_K%d, COUNT_K%d)" % (k, n, mode, k, k), n + 2,
+                        "c04_invariance::<%d, %d, %d>(&RANK_K%d, COUNT_K%d)" % (k, n, mode, k, k), max(n + 2, kcount_of(k) + 2),
                         {"clause": "row invariant under " + ["reverse complement", "letter case toggle", "U for T"][mode], "k": k, "max_len": n,
-                         "len": "symbolic 0..=%d" % n, "norm": "symbolic", "column": "symbolic", "tables": [k]}, core=core, timeout=timeout, cost=30.0 * n))
+                         "len": "symbolic 0..=%d" % n, "norm": "symbolic", "column": "symbolic", "tables": [k]}, core=core, timeout=timeout,
+                        cost=30.0 * n * kcount_of(k), unwindset=[kmer_loop(n)]))
 
     if tier == "quick":
         for k, n in ((1, 4), (2, 5), (3, 5)):
             counts(k, n, False)
-            counts(k, n, True)
+            counts(k, n, True, core=(k <= 2))
         for mode in (0, 1, 2):
             inv(2, 5, mode)
-        inv(3, 5, 0)
     else:
         for k in (1, 2, 3):
             for n in range(k + 3, 7):
                 counts(k, n, False, core=(n <= 5))
-                counts(k, n, True, core=(n <= 5))
+                counts(k, n, True, core=(n <= 5 and k <= 2))
             for mode in (0, 1, 2):
                 inv(k, 6, mode, core=False)
-                inv(k, 5, mode)
+                inv(k, 5, mode, core=(k <= 2), timeout=2400)
         for k in (4, 5, 6, 7):
             counts(k, k + 1, False, core=False, timeout=3000)
             counts(k, k + 1, True, core=False, timeout=3000)
@@ -474,17 +498,17 @@ PROPS["C04"] = Prop(
 # C11
 def c11_instances(tier, seed):
     out = []
-    ns = [2, 3] if tier == "quick" else [2, 3, 4, 5, 6]
+    ns = [0, 1, 2, 3] if tier == "quick" else [0, 1, 2, 3, 4, 5, 6]
     for n in ns:
-        out.append(Inst("c11_n%d" % n, "verif_c11", "composition", "c11_body::<%d>()" % n, n + 2,
-                        {"clause": "midpoint rule, containment, rejection", "max_len": n, "len": "symbolic 0..=%d" % n, "bytes": "symbolic 0x00..=0xFF",
-                         "square": "symbolic 1..=2^20"}, core=(n <= 4), timeout=1500 if n <= 3 else 3600, cost=30.0 * n * n,
-                        require_opt=[]))
-    pn = [3] if tier == "quick" else [3, 4, 5]
+        out.append(Inst("c11_l%d" % n, "verif_c11", "composition", "c11_body::<%d>()" % n, MAPU,
+                        {"clause": "midpoint rule, containment, rejection", "len": n, "bytes": "symbolic 0x00..=0xFF",
+                         "square": "symbolic 1..=2^20"}, core=(n <= 3), timeout=1500 if n <= 3 else 3600, cost=30.0 * n * n + 1, unwindset=[cgr_loop(n)],
+                        require_opt=(["opt: rejected record"] if n >= 1 else [])))
+    pn = [2, 3] if tier == "quick" else [2, 3, 4, 5]
     for n in pn:
-        out.append(Inst("c11_prefix_n%d" % n, "verif_c11", "composition", "c11_prefix::<%d>()" % n, n + 2,
+        out.append(Inst("c11_prefix_l%d" % n, "verif_c11", "composition", "c11_prefix::<%d>()" % n, MAPU,
                         {"clause": "prefix determinism", "len": n, "bytes": "symbolic 0x00..=0xFF", "square": "symbolic 1..=2^20"},
-                        core=(n <= 3), timeout=1500 if n <= 3 else 3600, cost=40.0 * n * n))
+                        core=(n <= 3), timeout=1500 if n <= 3 else 3600, cost=40.0 * n * n, unwindset=[cgr_loop(n)]))
     return out
 
 
@@ -495,7 +519,7 @@ PROPS["C11"] = Prop(
     assumptions=[COMMON_ASSUME[0], COMMON_ASSUME[1], HASHMAP_NOTE, BIO_NOTE,
                  "the struct is built directly from the real cgr_maps (CgrComputer::new calls rayon::current_num_threads)",
                  "square sizes are integers 1..=2^20 converted to f64 (as the CLI does)"],
-    outside=["records longer than max_len (in particular lengths where the midpoints stop being exactly representable)",
+    outside=["records longer than the instance lengths (in particular lengths where the midpoints stop being exactly representable)",
              "the batch/file path of CgrComputer::vectorise (I/O, rayon, {} float formatting)", "the Python copy (C13)"],
     instances=c11_instances,
     shims=["hashmap", "bio"],
@@ -520,25 +544,33 @@ def c12_instances(tier, seed):
     out = []
 
     def body(k, n, norm, core=True, timeout=1800):
-        out.append(Inst("c12_%s_k%d_n%d" % ("norm" if norm else "raw", k, n), "verif_c12", "composition",
-                        "c12_body::<%d, %d, %s>(&RANK_K%d, &INV_K%d, COUNT_K%d)" % (k, n, "true" if norm else "false", k, k, k),
-                        max(n + 2, 4 ** k + 2, kcount_of(k) + 2),
+        out.append(Inst("c12_%s_k%d_l%d" % ("norm" if norm else "raw", k, n), "verif_c12", "composition",
+                        "c12_body::<%d, %d, %s>(&RANK_K%d, &INV_K%d, COUNT_K%d, &OCOL_K%d, &OCANON_K%d)" % (k, n, "true" if norm else "false", k, k, k, k, k),
+                        MAPU,
                         {"clause": "(x,y) = CGR end point of the column's k-mer, f = oligo value (%s)" % ("normalised" if norm else "raw"), "k": k,
-                         "max_len": n, "len": "symbolic 0..=%d" % n, "square": "symbolic 1..=2^20", "column": "symbolic", "tables": [k]},
-                        core=core, timeout=timeout, cost=50.0 * n * k))
+                         "len": n, "square": "symbolic 1..=2^20", "column": "symbolic", "tables": [k]},
+                        core=core, timeout=timeout, cost=50.0 * n * kcount_of(k) + 1, unwindset=[kmer_loop(n), ocgr_kmer_loop(k)]))
 
     def rowindep(k, n, core=True, timeout=1800):
-        out.append(Inst("c12_rowindep_k%d_n%d" % (k, n), "verif_c12", "composition",
-                        "c12_rowindep::<%d, %d>(&RANK_K%d, &INV_K%d, COUNT_K%d)" % (k, n, k, k, k), max(n + 2, kcount_of(k) + 2),
+        out.append(Inst("c12_rowindep_k%d_l%d" % (k, n), "verif_c12", "composition",
+                        "c12_rowindep::<%d, %d>(&RANK_K%d, &INV_K%d, COUNT_K%d)" % (k, n, k, k, k), MAPU,
                         {"clause": "(x,y) of a column is the same in every row", "k": k, "len": n, "square": "symbolic 1..=2^20", "norm": "symbolic",
-                         "column": "symbolic", "tables": [k]}, core=core, timeout=timeout, cost=50.0 * n * k))
+                         "column": "symbolic", "tables": [k]}, core=core, timeout=timeout, cost=50.0 * n * kcount_of(k),
+                        unwindset=[kmer_loop(n), ocgr_kmer_loop(k)]))
 
-    ks = [1, 2] if tier == "quick" else [1, 2, 3]
-    for k in ks:
-        n = k + 3
-        body(k, n, True, core=(k <= 2))
-        body(k, n, False, core=(k <= 2))
-        rowindep(k, k + 1, core=(k <= 2))
+    if tier == "quick":
+        for n in (0, 1, 3):
+            body(1, n, True)
+            body(1, n, False)
+        rowindep(1, 2)
+        body(2, 3, True, timeout=2400)
+        body(2, 3, False, timeout=2400)
+    else:
+        for k in (1, 2, 3):
+            for n in range(0, k + 4):
+                body(k, n, True, core=(k == 1), timeout=3600)
+                body(k, n, False, core=(k == 1), timeout=3600)
+            rowindep(k, k + 1, core=(k == 1), timeout=3600)
     return out
 
 
@@ -550,7 +582,7 @@ PROPS["C12"] = Prop(
     assumptions=COMMON_ASSUME + [HASHMAP_NOTE, BIO_NOTE,
                                  "the struct is built directly (OligoCgrComputer::new calls rayon::current_num_threads); its kmers vector is built as `new` builds it "
                                  "(numeric_to_kmer over the index-to-k-mer table) from the tables of a native run of the real kmer_pos_maps(k)"],
-    outside=["row order / threads / batch limit of vectorise() (I/O + rayon)", "k > 2 (quick) / k > 3 (thorough)", "records longer than k+3",
+    outside=["row order / threads / batch limit of vectorise() (I/O + rayon)", "k > 2 (quick) / k > 3 (thorough; k = 2, 3 are optional deepening instances there)", "records longer than k+3",
              "the wiring inside OligoCgrComputer::new"],
     instances=c12_instances,
     shims=["hashmap", "bio"],
@@ -571,23 +603,27 @@ PROPS["C12"] = Prop(
 def c08_instances(tier, seed):
     out = []
 
-    def inst(k, n, e, bins, norm, core=True, timeout=1800):
-        out.append(Inst("c08_%s_k%d_n%d_e%d_b%d" % ("norm" if norm else "raw", k, n, e, bins), "verif_c08", "coverage",
-                        "c08_body::<%d, %d, %d, %d, %s>()" % (k, n, e, bins, "true" if norm else "false"), max(n + 2, e + 2, bins + 2),
+    def inst(k, n, e, bins, norm, maxbin_log2, core=True, timeout=1800):
+        out.append(Inst("c08_%s_k%d_n%d_e%d_b%d_s%d" % ("norm" if norm else "raw", k, n, e, bins, maxbin_log2), "verif_c08", "coverage",
+                        "c08_body::<%d, %d, %d, %d, %s, %d>()" % (k, n, e, bins, "true" if norm else "false", 2 ** maxbin_log2), MAPU,
                         {"clause": "per-record histogram for any counts table (%s)" % ("normalised" if norm else "raw"), "k": k, "max_len": n,
-                         "len": "symbolic 0..=%d" % n, "table_entries": e, "multiplicities": "symbolic u32", "bin_size": "symbolic 1..=2^32",
-                         "bin_count": "symbolic 1..=%d" % bins, "bin": "symbolic"}, core=core, timeout=timeout, cost=60.0 * n * e))
+                         "len": "symbolic 0..=%d" % n, "table_entries": e, "multiplicities": "symbolic u32", "bin_size": "symbolic 1..=2^%d" % maxbin_log2,
+                         "bin_count": bins, "bin": "symbolic"}, core=core, timeout=timeout, cost=60.0 * n * e,
+                        unwindset=[kmer_loop(n)]))
 
     if tier == "quick":
-        inst(2, 4, 2, 3, False)
-        inst(2, 4, 2, 3, True)
-        inst(3, 5, 2, 4, False)
+        inst(2, 4, 2, 3, False, 8)
+        inst(2, 4, 2, 3, True, 8)
+        inst(2, 3, 1, 1, True, 8)
     else:
         for k, n in ((2, 4), (2, 5), (3, 5)):
-            inst(k, n, 3, 4, False, core=(n <= 4))
-            inst(k, n, 3, 4, True, core=(n <= 4))
-        inst(31, 32, 2, 4, False, core=False, timeout=3600)
-        inst(31, 32, 2, 4, True, core=False, timeout=3600)
+            for bins in (1, 2, 4):
+                inst(k, n, 3, bins, False, 8, core=(n <= 4))
+                inst(k, n, 3, bins, True, 8, core=(n <= 4))
+        inst(2, 3, 1, 2, False, 16, core=False, timeout=3600)
+        inst(2, 3, 1, 2, False, 32, core=False, timeout=3600)
+        inst(31, 32, 2, 4, False, 8, core=False, timeout=3600)
+        inst(31, 32, 2, 4, True, 8, core=False, timeout=3600)
     return out
 
 
@@ -597,9 +633,10 @@ PROPS["C08"] = Prop(
     functions=["coverage::CovComputer::vectorise_one (private)", "kmer::kmer::KmerGenerator::{new,next}", "f64 binning (count as f64 / bin_size as f64).floor()"],
     assumptions=COMMON_ASSUME + [HASHMAP_NOTE, BIO_NOTE,
                                  "the counts table is an arbitrary map with <= table_entries distinct keys and arbitrary u32 multiplicities (the table the counter would produce is one of them)",
-                                 "the struct is built directly (CovComputer::new calls rayon::current_num_threads)"],
+                                 "the struct is built directly (CovComputer::new calls rayon::current_num_threads)",
+                                 "the oracle's integer quotient floor(c / bin-size) is a fresh variable constrained by q*b <= c < (q+1)*b (division lemma) instead of a 64-bit divider circuit"],
     outside=["build_table (counting + merge + temp-file round trip)", "row order, batching and flush conditions of compute_coverages", "thread-count independence",
-             "textual formatting of the row", "records longer than max_len, tables with more entries"],
+             "textual formatting of the row", "records longer than max_len, tables with more entries", "bin sizes above 2^8 in the core instances (2^16 / 2^32 are attempted as optional instances: the solver has to show that floor(fl(c/b)) equals the integer quotient)"],
     instances=c08_instances,
     shims=["hashmap", "bio"],
     roles=[
@@ -685,22 +722,29 @@ def c14_instances(tier, seed):
 
     def safety(k, n, core=True, timeout=1500):
         out.append(Inst("c14_oligo_safety_k%d_n%d" % (k, n), "verif_c14", "composition", "c14_oligo_safety::<%d, %d>(&RANK_K%d, COUNT_K%d)" % (k, n, k, k), n + 2,
-                        {"clause": "(a) get_unchecked sites of OligoComputer::vectorise_one", "k": k, "max_len": n, "norm": "symbolic", "tables": [k]},
-                        core=core, timeout=timeout, cost=20.0 * n))
-        out.append(Inst("c14_oligocgr_safety_k%d_n%d" % (k, n), "verif_c14o", "composition", "c14_oligocgr_safety::<%d, %d>(&RANK_K%d, COUNT_K%d)" % (k, n, k, k), n + 2,
-                        {"clause": "(a) get_unchecked sites of OligoCgrComputer::seq_to_kmer", "k": k, "max_len": n, "norm": "symbolic", "tables": [k]},
-                        core=core, timeout=timeout, cost=20.0 * n))
+                        {"clause": "(a) get_unchecked sites of OligoComputer::vectorise_one", "k": k, "max_len": n, "norm": "false (the normalisation loop is safe code)", "tables": [k]},
+                        core=core, timeout=timeout, cost=20.0 * n, unwindset=[kmer_loop(n)]))
+        out.append(Inst("c14_oligocgr_safety_k%d_n%d" % (k, n), "verif_c14o", "composition", "c14_oligocgr_safety::<%d, %d>(&RANK_K%d, COUNT_K%d)" % (k, n, k, k), MAPU,
+                        {"clause": "(a) get_unchecked sites of OligoCgrComputer::seq_to_kmer", "k": k, "max_len": n, "norm": "false (the normalisation loop is safe code)", "tables": [k]},
+                        core=core, timeout=timeout, cost=20.0 * n, unwindset=[kmer_loop(n)]))
         out.append(Inst("c14_table_range_k%d" % k, "verif_c14", "composition", "c14_table_range::<%d>(&RANK_K%d, COUNT_K%d)" % (k, k, k), 4,
                         {"clause": "(a) every pos_map entry is an accumulator index", "k": k, "code": "symbolic", "tables": [k]}, core=core, timeout=600, cost=2.0))
 
-    ks = [2, 3, 4, 7] if tier == "quick" else [1, 2, 3, 4, 5, 6, 7, 8]
+    # direct safety runs: k <= 4 (a 16384-entry heap copy of the table at k = 7 exhausted 12 GB);
+    # for larger k the argument is compositional: C01 gives min_mer <= fwd < 4^k = pos_map.len() for every k,
+    # c14_table_range gives pos_map[x] < kcount for every x (k <= 8)
+    ks = [2, 3, 4] if tier == "quick" else [1, 2, 3, 4, 5, 6]
     for k in ks:
-        safety(k, k + 2, core=(k <= 7))
-    for (k, n, e) in ([(2, 4, 2), (31, 32, 1)] if tier == "quick" else [(2, 5, 3), (3, 5, 3), (31, 33, 2)]):
-        out.append(Inst("c14_cov_safety_k%d_n%d_e%d" % (k, n, e), "verif_c14v", "coverage", "c14_cov_safety::<%d, %d, %d>()" % (k, n, e), max(n + 2, e + 2),
+        safety(k, k + 2, core=(k <= 4))
+    for k in ([5, 6, 7] if tier == "quick" else [7, 8]):
+        out.append(Inst("c14_table_range_k%d" % k, "verif_c14", "composition", "c14_table_range::<%d>(&RANK_K%d, COUNT_K%d)" % (k, k, k), 4,
+                        {"clause": "(a) every pos_map entry is an accumulator index", "k": k, "code": "symbolic", "tables": [k]}, core=(k <= 7), timeout=900, cost=2.0 * k))
+    for (k, n, e, mb) in ([(2, 4, 2, 8), (31, 32, 1, 8)] if tier == "quick" else [(2, 4, 2, 8), (2, 4, 2, 63), (3, 5, 3, 63), (31, 33, 2, 63)]):
+        out.append(Inst("c14_cov_safety_k%d_n%d_e%d_s%d" % (k, n, e, mb), "verif_c14v", "coverage",
+                        "c14_cov_safety::<%d, %d, %d, %d, %d>()" % (k, n, e, 1 + (n % 4), 2 ** mb), MAPU,
                         {"clause": "(a) get_unchecked_mut(vec_bin) of CovComputer::vectorise_one", "k": k, "max_len": n, "table_entries": e,
-                         "multiplicities": "symbolic u32", "bin_size": "symbolic >= 1 (any usize)", "bin_count": "symbolic 1..=4"},
-                        core=(k <= 3), timeout=1800, cost=40.0 * n))
+                         "multiplicities": "symbolic u32", "bin_size": "symbolic 1..=2^%d" % mb, "bin_count": 1 + (n % 4)},
+                        core=(mb <= 8), timeout=1800, cost=40.0 * n, unwindset=[kmer_loop(n)]))
     for (cap, l) in ([(8, 4)] if tier == "quick" else [(8, 4), (24, 8)]):
         out.append(Inst("c14_mmwriter_c%d_l%d" % (cap, l), "verif_c14w", "ktio", "c14_mmwriter::<%d, %d>()" % (cap, l), cap + 2,
                         {"clause": "(b) MMWriter::write_at contract: in-bounds and exact iff pos+len <= capacity", "capacity": cap, "len": "symbolic 1..=%d" % l,
@@ -708,10 +752,15 @@ def c14_instances(tier, seed):
         out.append(Inst("c14_mmwriter_tail_c%d_l%d" % (cap, l), "verif_c14w", "ktio", "c14_mmwriter_unchecked_tail::<%d, %d>()" % (cap, l), cap + 2,
                         {"clause": "(b) characterisation, EXPECTED TO FAIL: write_at bounds-checks only the first byte", "capacity": cap}, core=False, timeout=900, cost=10.0,
                         expect_fail=r"dereference failure|memcpy|copy_nonoverlapping|pointer|outside object bounds|src\.len|out of bounds"))
-    for k in ([1, 2, 3, 4, 7, 8] if tier == "quick" else range(1, 9)):
-        out.append(Inst("c14c_tiling_k%d" % k, "verif_c14", "composition", "c14c_tiling::<%d>()" % k, 12,
-                        {"clause": "(c) rows of vectorise_mmap tile the mapped file (extracted offset arithmetic)", "k": k, "records": "symbolic 1..=2^20",
-                         "record numbers": "symbolic", "delimiter length": "symbolic 0..=4", "header": "symbolic"}, core=True, timeout=900, cost=5.0))
+    for k in ([1, 3, 4, 7, 8] if tier == "quick" else range(1, 9)):
+        for d in ((0, 1, 2, 4) if tier == "quick" else (0, 1, 2, 3, 4, 7)):
+            out.append(Inst("c14c_tiling_k%d_d%d" % (k, d), "verif_c14", "composition", "c14c_tiling::<%d, %d, 64>()" % (k, d), 12,
+                            {"clause": "(c) rows of vectorise_mmap tile the mapped file (extracted offset arithmetic)", "k": k, "records": "symbolic 1..=64",
+                             "record numbers": "symbolic", "delimiter length": d, "header": "symbolic"}, core=True, timeout=900, cost=5.0 + k))
+    for (k, d) in ((8, 4), (1, 0), (7, 7)):
+        out.append(Inst("c14c_no_overflow_k%d_d%d" % (k, d), "verif_c14", "composition", "c14c_no_overflow::<%d, %d>()" % (k, d), 12,
+                        {"clause": "(c) the extracted offset arithmetic does not overflow and rows start after the header", "k": k, "records": "symbolic 1..=2^32",
+                         "record number": "symbolic", "delimiter length": d, "header": "symbolic"}, core=False, timeout=900, cost=5.0 + k))
     return out
 
 
@@ -732,7 +781,7 @@ PROPS["C14"] = Prop(
                                  "(c) the expressions are extracted by regular expressions from the current oligo.rs; if they cannot be located the check is inconclusive",
                                  "(a) pos_map is the table of a native run of the real kmer_pos_maps(k)"],
     outside=["the partition index get_unchecked(min_mer % n_parts) in counter::count_chunk (inline in a rayon closure, n_parts comes from reading the input file)",
-             "schedule-dependence of the mapped writes (threads)", "k = 8 safety instances in the quick tier", "delimiters longer than 4 bytes"],
+             "schedule-dependence of the mapped writes (threads)", "k = 8 safety instances in the quick tier", "delimiter lengths other than 0,1,2,3,4,7", "(c) exact tiling for more than 64 records (only overflow-freedom is decided up to 2^32 records; the offsets are affine in the record number)"],
     instances=c14_instances,
     shims=["hashmap", "bio"],
     generate=c14_extract,
@@ -757,33 +806,68 @@ PROPS["C14"] = Prop(
 
 # ---------------------------------------------------------------------------
 # C13
+# pyo3's PyValueError::new_err makes kani-compiler 0.68 crash (ICE in intrinsics.rs); it is stubbed in the CGR harnesses:
+# only is_err() of the PyResult is inspected and the value is never dropped
+CGR_STUB = ["kani::stub(pyo3::exceptions::PyValueError::new_err, crate::cgr::verif_c13c::new_err_stub)"]
+
+
 def c13_instances(tier, seed):
     out = []
-    for (k, n) in ([(1, 4), (2, 4)] if tier == "quick" else [(1, 5), (2, 5), (3, 5)]):
-        out.append(Inst("c13_oligo_ascii_k%d_n%d" % (k, n), "verif_c13o", "pybindings", "c13_oligo_ascii::<%d, %d>(&RANK_K%d, &INV_K%d, COUNT_K%d)" % (k, n, k, k, k),
-                        max(n + 2, kcount_of(k) + 2),
-                        {"clause": "oligo vector: binding vs core, bit-equal", "k": k, "max_len": n, "chars": "symbolic: ASCII 0x04..=0x7F or two-byte U+0080..=U+07FF", "norm": "symbolic",
-                         "column": "symbolic", "tables": [k]}, core=(k <= 2), timeout=1800, cost=60.0 * n))
+
+    def shape(n, mask):
+        return "".join("2" if (mask >> i) & 1 else "1" for i in range(n)) or "empty"
+
+    def oligo(k, n, mask, core=True):
+        nb = n + bin(mask).count("1")
+        out.append(Inst("c13_oligo_k%d_s%s" % (k, shape(n, mask)), "verif_c13o", "pybindings",
+                        "c13_oligo_ascii::<%d, %d, %d>(&RANK_K%d, &INV_K%d, COUNT_K%d)" % (k, n, mask, k, k, k), MAPU,
+                        {"clause": "oligo vector: binding vs core, bit-equal", "k": k, "chars": n, "shape (bytes per char)": shape(n, mask),
+                         "char values": "symbolic: ASCII 0x04..=0x7F / two-byte U+0080..=U+07FF", "norm": "symbolic", "column": "symbolic", "tables": [k]},
+                        core=core, timeout=1800, cost=60.0 * nb, unwindset=[kmer_loop(nb)],
+                        require_opt=(["opt: string with a two-byte character, non-zero entry"] if mask else [])))
+
+    def cgr(n, mask, core=True):
+        nb = n + bin(mask).count("1")
+        out.append(Inst("c13_cgr_s%s" % shape(n, mask), "verif_c13c", "pybindings", "c13_cgr::<%d, %d>()" % (n, mask), MAPU,
+                        {"clause": "CGR: binding vs core, same points, rejects the same inputs", "chars": n, "shape (bytes per char)": shape(n, mask),
+                         "char values": "symbolic: ASCII 0x00..=0x7F / two-byte U+0080..=U+07FF", "square": "symbolic 1..=2^20"},
+                        core=core, timeout=2400, cost=80.0 * nb * nb + 1, unwindset=[cgr_loop(nb), pycgr_loop(nb)], attrs=CGR_STUB,
+                        require_opt=(["opt: rejected record"] if n >= 1 else []) + (["opt: full-length accepted record"] if mask == 0 else [])))
+
+    if tier == "quick":
+        oligo(1, 3, 0)
+        oligo(2, 4, 0)
+        oligo(2, 3, 0b010)
+        cgr(0, 0)
+        cgr(2, 0)
+        cgr(2, 0b10)
+        cgr(2, 0b01)
+    else:
+        for k in (1, 2, 3):
+            for n in range(0, 5):
+                oligo(k, n, 0, core=(k <= 2))
+            for m in (0b001, 0b010, 0b100, 0b101):
+                oligo(k, 3, m, core=(k <= 2))
+        for n in range(0, 4):
+            cgr(n, 0, core=(n <= 3))
+        for (n, m) in ((1, 1), (2, 1), (2, 2), (2, 3), (3, 1), (3, 2), (3, 4)):
+            cgr(n, m, core=(n <= 2))
     for k in ([2] if tier == "quick" else [1, 2, 3]):
         out.append(Inst("c13_oligo_unicode_k%d" % k, "verif_c13o", "pybindings", "c13_oligo_unicode::<%d>(&RANK_K%d, &INV_K%d, COUNT_K%d)" % (k, k, k, k),
-                        max(12, kcount_of(k) + 2),
+                        MAPU,
                         {"clause": "oligo vector on 4 fixed non-ASCII strings (multi-byte chars act as ambiguous bytes)", "k": k, "norm": "symbolic", "tables": [k]},
-                        core=(k <= 2), timeout=1800, cost=100.0))
+                        core=False, timeout=1800, cost=100.0, unwindset=[kmer_loop(9)]))
         out.append(Inst("c13_header_k%d" % k, "verif_c13o", "pybindings", "c13_header::<%d>(&RANK_K%d, &INV_K%d, COUNT_K%d)" % (k, k, k, k),
-                        max(8, kcount_of(k) + 2),
+                        MAPU,
                         {"clause": "binding header equals core header", "k": k, "column": "symbolic", "tables": [k]}, core=(k <= 2), timeout=1800, cost=100.0))
-    for n in ([2, 3] if tier == "quick" else [2, 3, 4]):
-        out.append(Inst("c13_cgr_n%d" % n, "verif_c13c", "pybindings", "c13_cgr::<%d>()" % n, n + 2,
-                        {"clause": "CGR: binding vs core, same points, rejects the same inputs", "max_len": n, "chars": "symbolic: ASCII 0x00..=0x7F or two-byte U+0080..=U+07FF",
-                         "square": "symbolic 1..=2^20"}, core=(n <= 3), timeout=2400, cost=80.0 * n * n))
     for (k, n) in ([(2, 5), (31, 33)] if tier == "quick" else [(1, 5), (2, 6), (4, 8), (31, 34)]):
         out.append(Inst("c13_kmer_iter_k%d_n%d" % (k, n), "verif_c13k", "pybindings", "c13_kmer_iter::<%d, %d, %d>()" % (k, n, n - k + 2), n + 2,
-                        {"clause": "k-mer iterator: binding vs core after the String is consumed and the object moved", "k": k, "max_len": n},
-                        core=(k <= 4), timeout=1800, cost=30.0 * n))
-    for (w, m, n) in ([(3, 2, 5)] if tier == "quick" else [(2, 1, 5), (3, 2, 6), (4, 2, 7)]):
+                        {"clause": "k-mer iterator: binding vs core after the String is consumed and the object moved", "k": k, "len": n},
+                        core=(k <= 4), timeout=1800, cost=30.0 * n, unwindset=[kmer_loop(n)]))
+    for (w, m, n) in ([(3, 2, 4)] if tier == "quick" else [(2, 1, 4), (3, 2, 5), (4, 2, 6)]):
         out.append(Inst("c13_min_iter_w%d_m%d_l%d" % (w, m, n), "verif_c13m", "pybindings", "c13_min_iter::<%d, %d, %d, %d>()" % (w, m, n, n - w + 3), max(n + 2, w + 2),
                         {"clause": "minimiser iterator: binding vs core after the String is consumed and the object moved", "w": w, "m": m, "len": n},
-                        core=False if n > 5 else True, timeout=2400, cost=300.0,
+                        core=(n <= 4), timeout=2400, cost=300.0,
                         unwindset=[("kmer/src/minimiser.rs", BUFF_LOOP, w - m + 3)]))
     return out
 
@@ -828,11 +912,15 @@ PROPS["C13"] = Prop(
 # C06 (narrow)
 def c06_instances(tier, seed):
     out = []
-    for (r, l) in ([(2, 3), (3, 2)] if tier == "quick" else [(2, 3), (3, 2), (3, 4)]):
-        out.append(Inst("c06_numbering_r%d_l%d" % (r, l), "verif_c06", "ktio", "c06_numbering::<%d, %d>()" % (r, l), max(r, l) + 3,
-                        {"clause": "numbering / copy-out / statistics of ktio::seq over an arbitrary parsed-record list", "records": "symbolic 0..=%d" % r,
-                         "bases per record": "symbolic 0..=%d" % l, "ids": "symbolic 2 printable ASCII bytes", "bases": "symbolic ASCII letters", "format": "symbolic FASTA/FASTQ"},
-                        core=(r * l <= 6), timeout=2400, cost=100.0 * r * l))
+    # (records, max bases, length offset): offset 0 puts an empty record first (FASTA only), 1 makes every record non-empty (both formats)
+    combos = [(2, 2, 1), (3, 2, 0), (3, 1, 1)] if tier == "quick" else [(2, 2, 1), (3, 2, 0), (3, 1, 1), (3, 3, 1), (4, 2, 0), (4, 1, 1)]
+    for (r, l, first) in combos:
+        lens = [(i * 2 + first) % (l + 1) for i in range(r)]
+        out.append(Inst("c06_numbering_r%d_l%d_f%d" % (r, l, first), "verif_c06", "ktio", "c06_numbering::<%d, %d, %d>()" % (r, l, first), max(r, l, 8) + 2,
+                        {"clause": "numbering / copy-out / statistics of ktio::seq over a parsed-record list", "records": r,
+                         "bases per record": lens, "ids": "symbolic 2 printable ASCII bytes", "bases": "symbolic ASCII letters",
+                         "format": "symbolic FASTA/FASTQ" if 0 not in lens else "FASTA (bio rejects FASTQ records without bases)"},
+                        core=(r <= 3), timeout=2400, cost=100.0 * r * (l + 1), require_opt=(["opt: FASTQ branch"] if 0 not in lens else [])))
     return out
 
 
@@ -845,7 +933,7 @@ PROPS["C06"] = Prop(
                  "NO parsing (line wrapping, CRLF, final newline, id = first word), NO gzip and NO suffix inference is covered",
                  "native replay serialises the solver's records as single-line FASTA/FASTQ and reads them through the real bio parser"],
     outside=["FASTA/FASTQ parsing (bio crate; does not compile under Kani)", "gzip incl. multi-member files (flate2/miniz_oxide over a file)",
-             "SeqFormat::get suffix inference (core's TwoWaySearcher did not leave symbolic execution in 400 s)", "more than 3 records"],
+             "SeqFormat::get suffix inference (core's TwoWaySearcher did not leave symbolic execution in 400 s)", "more than 4 records, records longer than 3 bases"],
     instances=c06_instances,
     shims=["bio"],
     roles=[
@@ -858,3 +946,43 @@ PROPS["C06"] = Prop(
         ("total bases differ", "stats-bases"),
     ],
 )
+
+
+# C18 inductive step (clause 1): extra module pair + instances
+def c18_step_instances(tier):
+    out = []
+    pairs = [(2, 1, 6), (3, 2, 6), (3, 3, 6), (4, 2, 7)] if tier == "quick" else [(2, 1, 8), (2, 2, 8), (3, 2, 8), (3, 3, 8), (4, 2, 9), (4, 1, 8), (5, 3, 9), (8, 5, 10), (31, 31, 33), (31, 28, 33)]
+    for (w, m, n) in pairs:
+        us = [("kmer/src/minimiser.rs", BUFF_LOOP, w - m + 3), ("kmer/src/kmer_minimisers.rs", BUFF_LOOP, w - m + 3)]
+        out.append(Inst("c18_step_w%d_m%d_n%d" % (w, m, n), "verif_c18k", "kmer", "c18_step::<%d, %d, %d>()" % (w, m, n), max(n + 2, 6),
+                        {"clause": "(1) ONE INDUCTIVE STEP from any agreeing pair of states: same run, states agree again, invariant re-established",
+                         "w": w, "m": m, "max_len": n, "len": "symbolic 0..=%d" % n, "state": "symbolic (shared fields equal, validity invariant assumed)",
+                         "histories": "any number of next() calls (by induction with c18_base)"},
+                        core=(w <= 4), timeout=2400, cost=80.0 * n * (w - m + 2), unwindset=us))
+        out.append(Inst("c18_base_w%d_m%d_n%d" % (w, m, n), "verif_c18k", "kmer", "c18_base::<%d, %d, %d>()" % (w, m, n), max(n + 2, 6),
+                        {"clause": "(1) base case: new() gives agreeing states that satisfy the invariant", "w": w, "m": m, "max_len": n},
+                        core=(w <= 4), timeout=600, cost=5.0))
+    return out
+
+
+_c18_whole = c18_instances
+
+
+def c18_instances(tier, seed):  # noqa: F811
+    return _c18_whole(tier, seed) + c18_step_instances(tier)
+
+
+PROPS["C18"].modules += [
+    Module("kmer", "verif_c18s", "harness/kmer/verif_c18s.rs", parent="minimiser"),
+    Module("kmer", "verif_c18k", "harness/kmer/verif_c18k.rs", parent="kmer_minimisers"),
+]
+PROPS["C18"]._instances = c18_instances
+PROPS["C18"].roles += [
+    ("no longer agree on their shared state", "state-diverges"),
+    ("freshly constructed iterators do not agree", "state-diverges"),
+    ("validity invariant", "invariant-not-inductive"),
+]
+PROPS["C18"].functions += ["(inductive step) one next() of each iterator from an arbitrary agreeing pair of states; private fields set/read by injected child modules"]
+PROPS["C18"].assumptions += [
+    "inductive-step instances: the pre-state is ANY state satisfying the validity invariant of harness/kmer/verif_c18k.rs (inv), which the same instances prove to be inductive (base case c18_base_*, step c18_step_*); the ring model holds <= 8 buffered m-mers, the harness state array 4 (w-m+1 <= 4)",
+]
